@@ -152,6 +152,30 @@ def run(ctx):
                     ctx.count("kf_partition_order_sensitive")
                 else:
                     ctx.violation({"kind": "filters-do-not-partition", "in_neither": sorted(miss)[:3], "in_both": sorted(both)[:3]}, {}, files=ws.files)
+            # reference model: every fixture of a conftest / test file, and of every module those files pull in through star
+            # imports (transitively), is listed - whatever the implementation's own index contains
+            closure = [ws.abs(r) for r in ws.workspace_py()
+                       if os.path.basename(r) == "conftest.py" or os.path.basename(r).startswith("test_") or r.endswith("_test.py")]
+            seen_f = set(closure)
+            while closure:
+                f_ = closure.pop()
+                fm = model.models.get(f_)
+                if fm is None or not fm.ok:
+                    continue
+                for imp in fm.imports:
+                    if imp[0] != "star":
+                        continue
+                    tgt = model.resolve_module(imp[1], f_)
+                    if tgt and tgt not in seen_f and "/.venv/" not in tgt:
+                        seen_f.add(tgt)
+                        closure.append(tgt)
+            ctx.judged()
+            model_missing = sorted((os.path.relpath(f_, root), d_["name"]) for f_ in seen_f
+                                   for d_ in (model.models[f_].defs if model.models.get(f_) is not None and model.models[f_].ok else [])
+                                   if (os.path.relpath(f_, root), d_["name"]) not in full)
+            if model_missing:
+                ctx.violation({"kind": "fixture-of-a-collected-or-imported-module-missing-from-list", "missing": model_missing[:4]},
+                              {"n_missing": len(model_missing)}, files=ws.files)
             # every indexed project definition appears in the full list
             missing = {k for k in count if k not in full}
             ctx.judged()
